@@ -214,7 +214,7 @@ def scenarios(tier: str) -> List[Any]:
     else:
         for e, c, d in combos:
             for m in ALPHABET:
-                out.append(("single", e, c, d, (m,), 3, "all", "both"))
+                out.append(("single", e, c, d, (m,), 3, "all", "p"))
             for m1 in R8:
                 for m2 in R8:
                     out.append(("pair", e, c, d, (m1, m2), 2, "all", "none"))
